@@ -7,11 +7,11 @@
        by induction on the exponent's binary digits), the bit-count bookkeeping survives the off-by-one left by an upward
        truncation, and the final normalize keeps the side: floor <= x^n <= ceiling, |down| <= |x^n| <= |up|;
      * negative exponents: inverting the (prec+5)-bit power computed with the swapped mode lands on the right side of 1/x^n.
-   Not proved (left to the exact-rational oracle in the search side): the one-ulp bound of the loop branch in nearest mode
-   (C03_nearest_partial states what is proved there: the value that gets rounded is a lower bound of |x^n|). *)
+     * nearest mode: the loop loses at most n * 2^(1-wp) relative accuracy (lower-bound invariant with multiplicative error
+       bookkeeping, Proofs/PowErr.v), so every branch returns a value within 3/4 ulp of x^n (C03_nearest). *)
 From Coq Require Import ZArith Reals.
 From Flocq Require Import Core.
-From MP Require Import Algo.Base Algo.Libmpf Spec.Mpf Spec.Round Proofs.Normalize Proofs.Pow.
+From MP Require Import Algo.Base Algo.Libmpf Spec.Mpf Spec.Round Proofs.Normalize Proofs.Pow Proofs.PowErr.
 Open Scope Z_scope.
 
 Theorem C03_small_correctly_rounded : forall s n prec r, regular s -> 0 < prec ->
@@ -50,6 +50,18 @@ Proof. intros s n prec Hs Hp. exact (pow_general_side s n prec RN Hs Hp). Qed.
 Theorem C03_result_regular : forall s n prec r, regular s -> 0 < prec ->
   regular (mpf_pow_int_pos s n prec r) /\ msign (mpf_pow_int_pos s n prec r) = Z.land (msign s) (Zpos n).
 Proof. exact mpf_pow_int_pos_regular. Qed.
+
+Theorem C03_nearest : forall s n prec, regular s -> 0 < prec ->
+  (Rabs (rv (mpf_pow_int_pos s n prec RN) - rv s ^ Pos.to_nat n) <= 3 / 4 * ulp radix2 (FLX_exp prec) (rv s ^ Pos.to_nat n))%R.
+Proof. exact mpf_pow_int_pos_nearest. Qed.
+Print Assumptions C03_nearest.
+
+Theorem C03_loop_lower_bound : forall wp, 1 <= wp -> forall n pm pe pbc man exp bc P B (a b : nat),
+  good pm pbc -> good man bc -> (0 < P)%R -> (0 < B)%R ->
+  (P * q_of wp ^ b <= F2R (Float radix2 pm pe))%R -> (B * q_of wp ^ a <= F2R (Float radix2 man exp))%R ->
+  let '(m', e', bc') := pow_loop n true wp pm pe pbc man exp bc in
+  (P * B ^ Pos.to_nat n * q_of wp ^ (b + S a * Pos.to_nat n) <= F2R (Float radix2 m' e'))%R.
+Proof. exact pow_loop_lower. Qed.
 
 (* non-vacuity: a base and exponent that take the loop branch *)
 Example C03_loop_branch_reached :
